@@ -193,16 +193,42 @@ class Gen:
         if is_span:
             body.append("    let sp = tracing::%s!(%s);" % (macro, args))
             ops = []
+            blank = {"field": "", "declared": False, "ty": "", "slot": -1, "set": False, "entries": []}
+            foreign = any(op[0] == "foreignkey" or (op[0] == "set" and any(e[0] == "foreign" for e in op[1])) for op in record_ops)
+            if foreign:
+                # a second callsite declaring the same names: its keys are not this span's
+                body.append("    static FOREIGN: tracing::__macro_support::MacroCallsite = tracing::callsite2! { name: \"foreign\", kind: tracing::metadata::Kind::SPAN, fields: %s };"
+                            % ", ".join(d["name"] for d in decls))
+            def keyexpr(which, d):
+                src = "sp.metadata().unwrap()" if which == "own" else "tracing::callsite::Callsite::metadata(&FOREIGN)"
+                return "%s.fields().field(%s).unwrap()" % (src, json.dumps(d["name"], ensure_ascii=False))
             for op in record_ops:
-                # op: ('declared', field index, ty) | ('undeclared', ty)
+                # op: ('declared', field index, ty) | ('undeclared', ty) | ('ownkey' / 'foreignkey', field index, ty, by reference)
+                #     | ('set', [('own' / 'foreign', field index, ty), ...])  -- a hand-built ValueSet through Span::record_all
                 if op[0] == "declared":
                     d = decls[op[1]]
                     ty = op[2]
                     body.append("    sp.record(%s, %s);" % (json.dumps(d["name"], ensure_ascii=False), TYPES[ty].format(i=slot)))
-                    ops.append({"field": d["name"], "declared": True, "ty": ty, "slot": slot})
+                    ops.append(dict(blank, field=d["name"], declared=True, ty=ty, slot=slot))
+                elif op[0] in ("ownkey", "foreignkey"):
+                    d = decls[op[1]]
+                    ty = op[2]
+                    body.append("    { let k = %s; sp.record(%s, %s); }" % (keyexpr(op[0][:-3], d), "&&k" if op[3] else "&k", TYPES[ty].format(i=slot)))
+                    ops.append(dict(blank, field=d["name"], declared=op[0] == "ownkey", ty=ty, slot=slot))
+                elif op[0] == "set":
+                    ents, lets, items = [], [], []
+                    for j, (which, fi, ty) in enumerate(op[1]):
+                        d = decls[fi]
+                        lets.append("let k%d = %s;" % (j, keyexpr(which, d)))
+                        items.append("(&k%d, Some(&%s as &dyn tracing::field::Value))" % (j, TYPES[ty].format(i=slot)))
+                        ents.append({"field": d["name"], "own": which == "own", "ty": ty, "slot": slot})
+                        slot += 1
+                    body.append("    { %s sp.record_all(&sp.metadata().unwrap().fields().value_set(&[%s])); }" % (" ".join(lets), ", ".join(items)))
+                    ops.append(dict(blank, declared=True, set=True, entries=ents))
+                    continue
                 else:
                     body.append("    sp.record(\"never_declared\", %s);" % TYPES[op[1]].format(i=slot))
-                    ops.append({"field": "never_declared", "declared": False, "ty": op[1], "slot": slot})
+                    ops.append(dict(blank, field="never_declared", declared=False, ty=op[1], slot=slot))
                 slot += 1
             body.append("    ctx.span_made(&sp);")
             record = ops
@@ -287,6 +313,16 @@ class Gen:
             fs = [(rng.choice(nameforms), rng.choice(valforms + shorts + ["=", "=", "="]), rng.choice(list(TYPES))) for _ in range(n)]
             self.site(macro, fs, msg=rng.choice([None, None, "lit", "fmt", "cap"]),
                       prefix=rng.choice(prefixes), braced=rng.random() < 0.15)
+
+        # 7. (appended last: earlier callsite numbers stay put) Span::record through Field keys of the span's own and of a
+        #    foreign callsite, and hand-built value sets mixing both: only the span's own fields are shown
+        for macro in ["span"] + list(SPAN_SHORT):
+            for ty in ["u8", "str", "i64", "bool", "f64", "err", "bytes", "u128"]:
+                self.site(macro, [("ident", "empty", ""), ("ident", "=", "u16"), ("dotted", "empty", "")],
+                          record_ops=[("ownkey", 0, ty, False), ("foreignkey", 0, ty, True), ("foreignkey", 2, "u64", False), ("ownkey", 2, "str", True),
+                                      ("set", [("foreign", 0, ty), ("own", 0, ty), ("own", 2, "u64")]),
+                                      ("set", [("own", 2, "str"), ("foreign", 2, "u64")]),
+                                      ("set", [("foreign", 0, "u8")])])
 
     def write(self):
         dots = sorted({p for n in DOTTED for p in n.split(".")[1:]})
